@@ -24,6 +24,7 @@ mod color;
 mod xform;
 mod angle;
 mod spline;
+mod mesh;
 
 use std::io::{BufRead, BufWriter, Write};
 
@@ -76,6 +77,7 @@ fn subsystem(name: &str) -> Option<(GenFn, ExecFn)> {
         "xform" => (xform::gen, xform::exec),
         "angle" => (angle::gen, angle::exec),
         "spline" => (spline::gen, spline::exec),
+        "mesh" => (mesh::gen, mesh::exec),
         _ => return None,
     })
 }
